@@ -3,6 +3,7 @@
 use crate::engine::Ctx;
 use serde_json::Value;
 
+pub mod lab;
 pub mod node_level;
 
 pub const LEVEL: &str = "exploration";
@@ -57,6 +58,7 @@ props! {
     "C05" => c05,
     "C06" => c06,
     "C07" => c07,
+    "C08" => c08,
     "C11" => c11,
     "C12" => c12,
     "C16" => c16,
